@@ -15,7 +15,7 @@ static void ob_resume(H<T>& h)
 
     typename A::chk const full = A::run(w, calls, base, always_true<typename A::chk>());
     std::string const text_full = ser(full);
-    h.check("C03,C05|text.numbers_written_scientific_with_max_digits10", h.truth(all_numbers_well_formatted<T>(text_full)));
+    h.check("C03,C05|text.numbers_written_in_a_format_that_keeps_max_digits10_digits", h.truth(all_numbers_well_formatted<T>(text_full)));
 
     // C05: the text of the empty and of the final checkpoint read back field by field
     {
